@@ -161,7 +161,8 @@ for f in kf:
                                              f["signature"][:70], f["what"].replace("|", "/")[:420]))
 NEW3 = """## 3. Findings on the pinned tree (what the checks found; `known_findings.json` is the authoritative list)
 
-Every entry below was first reported by a check as a VIOLATION with a shrunk replay file, triaged against the real code, and
+Every entry below was reported by a check as a VIOLATION with a shrunk replay file (the C09 on-demand import only after a
+seeding sub-agent had pointed at it and the payload generator had been extended), triaged against the real code, and
 then either repaired by one minimal unguarded `fix:` commit in /repo (the repository's 57 tests pass after each) or kept as a
 known finding with a signature specific enough that a different violation of the same property still fails the check. The
 expected findings F1–F10 of the design all materialised except that F4 turned out to be two windows (F4, F4b) and F10 was
